@@ -770,35 +770,47 @@ func (h *tkHarness) pullRewound(s string, polls, k int) (string, string) {
 }
 
 func (h *tkHarness) pullOn(sc mv, polls, max int) (string, string) {
+	ts, bad, why := h.pullToks(sc, polls, max)
+	if bad != "" {
+		return bad, ""
+	}
+	if why != "" {
+		return "", why
+	}
+	return renderToks(ts), ""
+}
+
+// pullToks: the tokens, or a description of a contradiction between HasNextToken and NextToken, or why undecided.
+func (h *tkHarness) pullToks(sc mv, polls, max int) ([]tkTok, string, string) {
 	scT := h.c.MustFunc("io", "", "NewStringScanner").Signature.Results().At(0).Type()
 	if _, out := h.call("SetReader", mIface{t: scT, v: sc}); out.kind != "ok" {
-		return "", "SetReader: " + out.why
+		return nil, "", "SetReader: " + out.why
 	}
 	var toks []mv
 	if max == 0 {
 		for p := 0; p < polls; p++ {
 			if _, out := h.call("HasNextToken"); out.kind != "ok" {
-				return "", "HasNextToken: " + out.why
+				return nil, "", "HasNextToken: " + out.why
 			}
 		}
-		return "", ""
+		return nil, "", ""
 	}
 	for n := 0; n < max; n++ {
 		more := true
 		for p := 0; p < polls; p++ {
 			r, out := h.call("HasNextToken")
 			if out.kind != "ok" {
-				return "", "HasNextToken: " + out.why
+				return nil, "", "HasNextToken: " + out.why
 			}
 			b, ok := r.(bool)
 			if !ok {
-				return "", "HasNextToken is undetermined"
+				return nil, "", "HasNextToken is undetermined"
 			}
 			more = b
 		}
 		t, out := h.call("NextToken")
 		if out.kind != "ok" {
-			return "", "NextToken: " + out.why
+			return nil, "", "NextToken: " + out.why
 		}
 		if _, isNil := t.(mNilT); isNil {
 			break
@@ -807,18 +819,18 @@ func (h *tkHarness) pullOn(sc mv, polls, max int) (string, string) {
 			break
 		}
 		if !more {
-			return "HasNextToken answered false but NextToken returned a token", ""
+			return nil, "HasNextToken answered false but NextToken returned a token", ""
 		}
 		toks = append(toks, t)
 		if len(toks) > 200 {
-			return "", "the pull iteration does not end"
+			return nil, "", "the pull iteration does not end"
 		}
 	}
 	ts, why := h.readTokens(mSlice{toks})
 	if why != "" {
-		return "", why
+		return nil, "", why
 	}
-	return renderToks(ts), ""
+	return ts, "", ""
 }
 
 func init() {
